@@ -201,6 +201,20 @@ def run_property(pid, tier):
             for r in got:
                 called |= set(r.get("callees", []))
             pending = sorted(q for q in called if q not in quals and verifiable(q))
+        # a solver `unknown` under load is retried once with the machine to itself (few jobs at a time): `unknown` decides nothing,
+        # and a verdict must not depend on how busy the 16 cores were while the first attempt ran
+        flaky = [i for i, r in enumerate(shard_results)
+                 if not r.get("error") and any(o["verdict"] not in ("unsat", "sat", "known") for o in r.get("obligations", []))]
+        if flaky and not os.environ.get("VERIF_NO_RETRY"):
+            jobs = [(shard_results[i]["qual"], thorough, shard_results[i]["shard"]) for i in flaky]
+            with ctx.Pool(min(len(jobs), 4)) as pool:
+                again = pool.map(verify_one, jobs, chunksize=1)
+            for i, r in zip(flaky, again):
+                n0 = sum(1 for o in shard_results[i].get("obligations", []) if o["verdict"] not in ("unsat", "sat", "known"))
+                n1 = sum(1 for o in r.get("obligations", []) if o["verdict"] not in ("unsat", "sat", "known")) if not r.get("error") else n0 + 1
+                if n1 < n0:
+                    r.setdefault("notes", []).append("retried once after solver unknown under load (%d -> %d undecided obligations)" % (n0, n1))
+                    shard_results[i] = r
         results = merge_shards(shard_results, quals)
         closure_added = [q for q in quals if q not in declared]
         if os.environ.get("VERIF_WRITE_HINTS"):
